@@ -8,7 +8,7 @@ use regex::Regex;
 
 use fnv::FnvHasher;
 
-use chrono::{Local, Datelike, Timelike, DurationRound, Duration, TimeZone};
+use chrono::{Local, Datelike, Timelike, DurationRound, Duration, TimeZone, Offset};
 
 use itertools::Itertools;
 
@@ -508,6 +508,11 @@ impl<'a, T: ColumnProvider> ExpressionExecutionEngine<'a, T> {
 
                                 match duration {
                                     Ok(duration) => {
+                                        // At the ends of the range the local time may not be representable although the instant is
+                                        if timestamp.naive_utc().checked_add_offset(timestamp.offset().fix()).is_none() {
+                                            return Err(EvaluationError::FailedToTruncate);
+                                        }
+
                                         let trunc_timestamp = timestamp.duration_trunc(duration).map_err(|_| EvaluationError::FailedToTruncate)?;
                                         Ok(Value::Timestamp(trunc_timestamp))
                                     }
